@@ -179,6 +179,18 @@ def run(prog: Program, col: Collector, tier: str, refs: Optional[Refs] = None, c
     col.rule("R04.17", "a rebuilt node is substituted only at the names that are fresh in the node itself, not in what it evaluated to", floor=1)
     _fresh_of_original_node(prog, col, refs, cat)
 
+    # ---------------------------------------------------------------- R04.18
+    col.rule("R04.18", "composition of two slices: start, stop and step of the composed slice select exactly the composed index set", floor=1)
+    _slice_composition(prog, col, refs, cat)
+
+    # ---------------------------------------------------------------- R04.19
+    col.rule("R04.19", "a renaming set that is filtered by a test on itself is filtered to a fixpoint", floor=1)
+    _self_referential_filter(prog, col, refs, cat)
+
+    # ---------------------------------------------------------------- R04.20
+    col.rule("R04.20", "integrating against a Delta substitutes the points of the integrated names only", floor=1)
+    _delta_integrate(prog, col, refs, cat)
+
     # ---------------------------------------------------------------- R04.3
     col.rule("R04.3", "Subs declares f's unsubstituted inputs plus the inputs of the substituted values", floor=3)
     si = require_func(prog, "funsor.terms::Subs.__init__")
@@ -857,6 +869,11 @@ def _ieval(e: ast.AST, env: Dict[str, int]):
         if e.id in env:
             return env[e.id]
         raise _NoEval(e.id)
+    if isinstance(e, ast.Attribute):
+        key = norm(e)
+        if key in env:
+            return env[key]
+        raise _NoEval(key)
     if isinstance(e, ast.BinOp):
         a, b = _ieval(e.left, env), _ieval(e.right, env)
         if isinstance(e.op, ast.Add):
@@ -1076,3 +1093,129 @@ def _fresh_of_original_node(prog: Program, col: Collector, refs: Refs, cat: Cata
                  and isinstance(st.value, ast.Attribute) and st.value.attr == "fresh"]
         col.check(bool(gives), construct, f"the fresh names of the node being rebuilt are handed over by substitute() (`.{attr} = <node>.fresh`) and take precedence over the result's",
                   f"interpret consults `{selfn}.{attr}` but substitute() never sets it from the fresh names of the node it rebuilds", im.loc(c))
+
+
+# ---------------------------------------------------------------------- R04.18
+def _slice_composition(prog: Program, col: Collector, refs: Refs, cat: Catalogue):
+    """Slice(n, s0, e0, k0)(n=Slice(m, s1, e1, k1)) enumerates s0 + k0 * j for j in range(s1, e1, k1) (while j stays below the size of
+    the outer slice).  The three integer expressions handed to the composed Slice are evaluated by the analyser's integer evaluator on
+    a grid; the composed slice must enumerate exactly that sequence."""
+    f = prog.funcs.get("funsor.terms::Slice.eager_subs")
+    if f is None:
+        raise AnalysisError("anchor Slice.eager_subs not found")
+    selfn = f.positional[0]
+
+    def is_slice_test(t):
+        if isinstance(t, ast.Call) and isinstance(t.func, ast.Name) and t.func.id == "isinstance" and len(t.args) == 2 and isinstance(t.args[0], ast.Name) \
+                and (refs.resolve(t.args[1]) if isinstance(t.args[1], (ast.Name, ast.Attribute)) else None) == "funsor.terms.Slice":
+            return t.args[0].id
+        return None
+
+    n = 0
+    for node, v, region in regions_where(f.module, f.node, is_slice_test):
+        rets = [st for st in region if isinstance(st, ast.Return) and isinstance(st.value, ast.Call) and refs.resolve(st.value.func) == "funsor.terms.Slice" and len(st.value.args) >= 5]
+        if not rets:
+            continue
+        ret = rets[0]
+        prefix = [st for st in region if st is not ret and isinstance(st, (ast.Assign, ast.AugAssign, ast.If))]
+        n += 1
+        bad = None
+        cases = 0
+        try:
+            for k0 in (1, 2, 3):
+                for s0 in range(0, 4):
+                    for e0 in range(s0 + 1, 10):
+                        size0 = len(range(s0, e0, k0))
+                        for k1 in (1, 2):
+                            for s1 in range(0, size0):
+                                for e1 in range(s1 + 1, size0 + 1):
+                                    env = {f"{selfn}.slice.start": s0, f"{selfn}.slice.stop": e0, f"{selfn}.slice.step": k0, f"{selfn}.dtype": 12,
+                                           f"{v}.slice.start": s1, f"{v}.slice.stop": e1, f"{v}.slice.step": k1, f"{v}.name": 0, f"{v}.dtype": size0}
+                                    stmts = [st for st in prefix if not (isinstance(st, ast.Assign) and isinstance(st.value, ast.Attribute) and st.value.attr == "name")]
+                                    _iexec(stmts, env)
+                                    a = ret.value.args
+                                    gs, ge, gk = _ieval(a[1], env), _ieval(a[2], env), _ieval(a[3], env)
+                                    want = [s0 + k0 * j for j in range(s1, e1, k1)]
+                                    got = list(range(gs, ge, gk)) if gk > 0 else None
+                                    cases += 1
+                                    if got != want and bad is None:
+                                        bad = ((s0, e0, k0), (s1, e1, k1), (gs, ge, gk), want)
+        except _NoEval as ex:
+            col.unresolved(f"{f.fq}::slice of a slice", f"the composed bounds are not plain integer arithmetic ({ex})", f.loc(ret))
+            continue
+        col.cur.analysed["slice_composition_cases"] = cases
+        col.check(bad is None, f"{f.fq}::slice of a slice", f"{cases} combinations of an outer and an inner slice on the grid: the composed slice enumerates outer[inner]",
+                  (f"outer slice {bad[0]} indexed by inner slice {bad[1]} is composed to {bad[2]}, which enumerates {list(range(*bad[2])) if bad[2][2] > 0 else '?'} "
+                   f"instead of {bad[3]}") if bad else "", f.loc(ret))
+    if n == 0:
+        raise AnalysisError("Slice.eager_subs: the branch composing two slices was not found")
+
+
+# ---------------------------------------------------------------------- R04.19
+def _self_referential_filter(prog: Program, col: Collector, refs: Refs, cat: Catalogue):
+    """`S -= {k for k in S if <test that reads S>}`: removing an element can make the test true for another element, so one pass is
+    not enough - the chain x(i=j, j=k) (k an input that keeps its name) needs two.  Such a statement must sit in a loop that repeats
+    until nothing is removed."""
+    n = 0
+    for f in prog.funcs.values():
+        if isinstance(f.node, ast.Lambda) or f.name != "eager_subs":
+            continue
+        for st in walk_no_nested(f.node):
+            S = None
+            comp = None
+            if isinstance(st, ast.AugAssign) and isinstance(st.op, ast.Sub) and isinstance(st.target, ast.Name):
+                S = st.target.id
+                val = st.value
+                if isinstance(val, ast.Name):
+                    ds = [d for d in walk_no_nested(f.node) if isinstance(d, ast.Assign) and any(isinstance(t, ast.Name) and t.id == val.id for t in d.targets)]
+                    val = ds[0].value if len(ds) == 1 else None
+                if isinstance(val, (ast.SetComp, ast.GeneratorExp)) or (isinstance(val, ast.Call) and val.args and isinstance(val.args[0], (ast.SetComp, ast.GeneratorExp))):
+                    comp = val if isinstance(val, (ast.SetComp, ast.GeneratorExp)) else val.args[0]
+            if S is None or comp is None:
+                continue
+            g = comp.generators[0]
+            iter_is_S = isinstance(g.iter, ast.Name) and g.iter.id == S
+            reads_S = any(isinstance(x, ast.Name) and x.id == S for c in g.ifs for x in ast.walk(c))
+            if not (iter_is_S and reads_S):
+                continue
+            n += 1
+            in_loop = any(isinstance(a, ast.While) for a in f.module.ancestors(st) if f.module.enclosing_function(a) is f.node)
+            col.check(in_loop, f"{f.fq}::{S} -= ...", f"`{S}` is filtered repeatedly until nothing more is removed",
+                      f"`{S}` is filtered once by a test that reads `{S}` itself: removing one name can make the test true for another (a chain of renamings x(i='j', j='k') onto an "
+                      "input k that keeps its name), so a single pass leaves a renaming that collapses two inputs", f.loc(st))
+    if n == 0:
+        raise AnalysisError("no self-referential filter of a renaming set found (anchor: Tensor.eager_subs)")
+
+
+# ---------------------------------------------------------------------- R04.20
+def _delta_integrate(prog: Program, col: Collector, refs: Refs, cat: Catalogue):
+    """Integrate(Delta({name: point, ...}), integrand, reduced_vars) substitutes `point` for `name` in the integrand - for the names that
+    are being integrated.  A Delta may bind more names than are reduced; substituting those as well removes inputs the result must keep."""
+    n = 0
+    for r in cat.registrations:
+        f = r.target
+        if f is None or len(r.pattern) < 2 or isinstance(f.node, ast.Lambda) or refs.resolve(r.pattern[0]) != "funsor.integrate.Integrate":
+            continue
+        if refs.resolve(r.pattern[1]) != "funsor.delta.Delta" or len(f.positional) < 3:
+            continue
+        deltan, rvn = f.positional[0], f.positional[2]
+        for cp in [x for x in ast.walk(f.node) if isinstance(x, (ast.GeneratorExp, ast.ListComp))]:
+            g = cp.generators[0]
+            if not (isinstance(g.iter, ast.Attribute) and g.iter.attr == "terms" and isinstance(g.iter.value, ast.Name) and g.iter.value.id == deltan):
+                continue
+            if not (isinstance(cp.elt, ast.Tuple) and len(cp.elt.elts) == 2):
+                continue
+            n += 1
+            key = g.target.elts[0].id if isinstance(g.target, ast.Tuple) and isinstance(g.target.elts[0], ast.Name) else None
+            # the filter: key in <names derived from reduced_vars>
+            derived = {rvn}
+            for st in walk_no_nested(f.node):
+                if isinstance(st, ast.Assign) and len(st.targets) == 1 and isinstance(st.targets[0], ast.Name) and any(isinstance(x, ast.Name) and x.id in derived for x in ast.walk(st.value)):
+                    derived.add(st.targets[0].id)
+            ok = any(isinstance(c, ast.Compare) and len(c.ops) == 1 and isinstance(c.ops[0], ast.In) and isinstance(c.left, ast.Name) and c.left.id == key
+                     and any(isinstance(x, ast.Name) and x.id in derived for x in ast.walk(c.comparators[0])) for c in g.ifs)
+            col.check(ok, f"{f.fq}::points substituted", "only the points of names that are being integrated are substituted",
+                      f"every (name, point) pair of the Delta is substituted into the integrand, not only those with `name` among `{rvn}`: a name the Delta binds but that is not "
+                      "integrated disappears from the result's inputs", f.loc(cp))
+    if n == 0:
+        raise AnalysisError("no Integrate(Delta, ...) rule that builds substitution pairs from delta.terms found")
